@@ -7,18 +7,21 @@ MC      MC_Stream: frames of body sizes 0..3 (3 > MaxBody = 2: refused), every c
         for the whole body) the run MUST fail.
         MC_Exchange: 3 clients (one resend), 2 receive buffers, all interleavings of Send/Recv/Decode/Release/Handle/Reply/
         ClientRecv, VIEW hiding history; requests of different sizes, buffers with a length: NoMixing (the handler sees every
-        octet of its client's request).  Non-vacuity: with Swapped = TRUE (Release before Decode) and with KeepLen = TRUE (the
-        released buffer keeps the length of the last datagram) it MUST fail.
+        octet of its client's request; the reply leaves from the local address the request was sent to).  Non-vacuity: with
+        Swapped = TRUE (Release before Decode), KeepLen = TRUE (the released buffer keeps the length of the last datagram) and
+        SessShared = TRUE (the session data is overwritten by the next datagram) it MUST fail.
 GEN     Gen_Stream: the MC behaviours laid over the real sizes {12, 13, 255, 256, 257, 512, 4096, 65535} (+ 65536: refused):
         chunkings over the meaningful offsets of each frame, end of stream at each of them, a write failing at each of them
         -> `exchange replay` through Conn.ReadMsgHeader / Read / ReadMsg / Write / WriteMsg and, on a real server over an
         in-memory listener, readTCP (seen through a DecorateReader) and response.Write / WriteMsg (also two handler goroutines
         writing on one connection).  Reply-ID vectors through Client.ExchangeWithConn on stream and datagram fakes (simulated
-        deadline; a few with a real one), Client.ExchangeContext on real loopback sockets, and ExchangeWithConn over a real socket
+        deadline; a few with a real one; the fakes record every read deadline they are given: after the request is written it
+        must not move later -- Stream.MaxDeadlineExtensions), Client.ExchangeContext on real loopback sockets, and ExchangeWithConn over a real socket
         of every transport KIND the spec names (Stream.KindRules): tcp, unix stream, the two wrapped in another conn type, udp,
         unixgram, wrapped udp, unixpacket (both rules admitted); a kind the OS refuses is counted as skipped.
 TV      `exchange record`: N in {8, 64} concurrent clients against a real UDP loopback server (ReadFromSessionUDP + buffer
-        pool), an in-memory PacketConn server (pool) and TCP servers (in-memory and loopback); the handler snapshots the
+        pool), a real UDP server on a wildcard socket whose clients talk to 127.0.0.1/2/3 from unconnected sockets and log
+        which address each reply came from ("udpmulti"), an in-memory PacketConn server (pool) and TCP servers (in-memory and loopback); the handler snapshots the
         request, waits until later packets were received, snapshots again -> Trace_Exchange.
         A client that got no reply (UDP loss) is logged as "lost" and is never a verdict.
 
@@ -62,13 +65,15 @@ def mc_all(ctx):
     r = mc(ctx, "MC_Stream", {"ReadFullSem": "FALSE"}, must_pass=False)
     if r.ok or "Invariant StreamSound is violated" not in r.out:
         raise vp.Infra("non-vacuity: MC_Stream with a single Read for the body must violate StreamSound:\n" + r.out[-800:])
-    mc(ctx, "MC_Exchange", {} if ctx.quick else {"MaxResend": 2})
-    r = mc(ctx, "MC_Exchange", {"Swapped": "TRUE"}, must_pass=False)
-    if r.ok or "Invariant Inv is violated" not in r.out:
-        raise vp.Infra("non-vacuity: MC_Exchange with Release before Decode must violate NoMixing:\n" + r.out[-800:])
-    r = mc(ctx, "MC_Exchange", {"KeepLen": "TRUE"}, must_pass=False)
-    if r.ok or "Invariant Inv is violated" not in r.out:
-        raise vp.Infra("non-vacuity: MC_Exchange with a released buffer keeping the last datagram's length must violate NoMixing:\n" + r.out[-800:])
+    # two local addresses without resends, one local address with resends (thorough: both at once, and two resends)
+    mc(ctx, "MC_Exchange", {} if ctx.quick else {"MaxResend": 1})
+    mc(ctx, "MC_Exchange", {"Locals": "{1}", "MaxResend": 1 if ctx.quick else 2})
+    for const, what in (("Swapped", "Release before Decode"),
+                        ("KeepLen", "a released buffer keeping the last datagram's length"),
+                        ("SessShared", "session data that the next datagram overwrites")):
+        r = mc(ctx, "MC_Exchange", {const: "TRUE"}, must_pass=False)
+        if r.ok or "Invariant Inv is violated" not in r.out:
+            raise vp.Infra("non-vacuity: MC_Exchange with %s must violate NoMixing:\n%s" % (what, r.out[-800:]))
 
 
 def extra_sizes(ctx):
@@ -103,6 +108,9 @@ def tv(ctx, binp, tr, n, rounds, k):
 
 def judge(ctx, path):
     evs = vp.read_ndjson(path)
+    if not evs:
+        ctx.notes.setdefault("skipped_transports", []).append(os.path.basename(path))   # the OS refused the sockets: no verdict
+        return []
     insts = sorted({e["c"] * 8 + e["round"] for e in evs if e["ev"] == "send"})
     bufs = sorted({e.get("buf", 0) for e in evs} | {0})
     tr = ctx.tlc_trace("Trace_Exchange", path, xmx="3g", timeout=1800,
@@ -140,7 +148,7 @@ def run(ctx):
             lambda: gen_replay(ctx, binp, "id"),
         ]
         k = 0
-        for tr in ("udp", "pc", "tcp", "tcpreal"):
+        for tr in ("udp", "udpmulti", "pc", "tcp", "tcpreal"):
             for n, rounds in ((8, 6), (64, 3)):
                 if tr == "tcpreal" and n == 64:
                     continue
@@ -158,7 +166,7 @@ def run(ctx):
         ]
         k = 0
         for rep in range(6):
-            for tr in ("udp", "pc", "tcp", "tcpreal"):
+            for tr in ("udp", "udpmulti", "pc", "tcp", "tcpreal"):
                 for n, rounds in ((8, 8), (64, 4), (32, 8)):
                     k += 1
                     jobs.append(lambda tr=tr, n=n, rounds=rounds, k=k: tv(ctx, binp, tr, n, rounds, k))
